@@ -224,6 +224,7 @@ func c15Units(tier string) []Unit {
 	sc := []int{0, 1}
 	add("positional", h.Config{}, alpha{scopes: sc, ctors: []*uFunc{pA, pB, pC, pBn}, export: !q, decos: []*uFunc{dA, dAB}, invokes: []*uFunc{iA, iB, iC, iBn}})
 	add("names-groups", h.Config{}, alpha{scopes: sc, ctors: []*uFunc{pA, pBn, fG1, fFl2, pM, pG}, invokes: []*uFunc{iO, iG, iC, iBn}})
+	add("options-on-several-results", h.Config{}, alpha{scopes: sc, ctors: []*uFunc{pABn, pABg, pA, pBn}, invokes: []*uFunc{qAn, iBn, iA, iG, iGB}})
 	add("objects", h.Config{}, alpha{scopes: sc, ctors: []*uFunc{pA, pCo, pM, pABo}, decos: []*uFunc{dG}, invokes: []*uFunc{iO, iO2, iC}})
 	add("duplicates-and-cycles", h.Config{}, alpha{scopes: sc, ctors: []*uFunc{pA, pA2, rAB, rBC, rCA, pABo}, invokes: []*uFunc{iA, iB}})
 	if !q {
@@ -232,4 +233,8 @@ func c15Units(tier string) []Unit {
 	return units
 }
 
-var pABo = u.F("pABo", "", "A,B")
+var (
+	pABo = u.F("pABo", "", "A,B")
+	pABn = u.F("pABn", "", "A,B", u.Name("n"))  // the Name option applies to every result
+	pABg = u.F("pABg", "", "A,B", u.Group("g")) // and so does Group
+)
